@@ -1199,7 +1199,7 @@ Fixpoint run (fx : fixes) (c : cfg) (st : state) (evs : list event) : list (list
                end
   end.
 Definition legacy_wiring : fixes :=
-  {| fx_wiring := false; fx_udp_via_listener := true; fx_indialog_invite := true; fx_bracket_host := true |}.
+  {| fx_wiring := false; fx_udp_via_listener := true; fx_indialog_invite := true; fx_bracket_host := true; fx_resolved_key := true |}.
 Definition rt := "Route: <sip:10.0.0.2:5070;lr>".
 Definition src := s2b "127.0.0.9".
 Definition hop := DUdp (s2b "10.0.0.2") 5070.
